@@ -3,7 +3,8 @@
 Theorems: coq/theories/Props/C13.v (model + specification: coq/theories/Walkers/Subst.v, proofs: Proofs/Subst_proofs.v).
 Tie: correspondence.  Typed random expressions (harness/gen/exprs.py) and substitution maps of 1-4 entries over
 fluent expressions, parameters, variables and compound sub-terms (nested keys, keys under the binders of their
-variables, quantifier keys, values that contain other keys, capturing values, Not-headed values) are given to
+variables, quantifier keys, values that contain other keys, capturing values, Not-headed values, keys whose free variable
+has the NAME of a variable bound around the occurrence but another type - a different Variable) are given to
 FNode.substitute; Coq evaluates the model of the code and the specification on the same input and compares them
 structurally with what the implementation returned, with an independent Python top-down replacement, and evaluates
 the evaluation statements on the observed result under sampled interpretations wherever their hypotheses hold.
@@ -192,6 +193,12 @@ def n_ops(e):
     return (1 if e.args else 0) + sum(n_ops(a) for a in e.args)
 
 
+def homonym_under(x, b):
+    """x (occurring under the binders b) has a FREE variable h whose NAME is also the name of a variable of b that is a
+    different Variable (other type: Variable equality is name + type).  h is not bound there: keys made of x stay in play"""
+    return any(h not in b and any(v.name == h.name for v in b) for h in fv(x))
+
+
 # ---------------------------------------------------------------------------------------------------------------
 # serialisation
 # ---------------------------------------------------------------------------------------------------------------
@@ -247,6 +254,25 @@ class Gen:
             self.left = 12
         self.left -= 1
         return self.w
+
+    def homonym_vars(self, w, made, p=0.6):
+        """replacement for w.fresh_var during ONE generation attempt: with probability p the new variable takes the NAME of a
+        variable already made for this expression (free, or bound further out / in a sibling) and the OTHER type, i.e. it is
+        a different Variable with the same name (sub-formulae written separately that all call their variable `x`)"""
+        rng = self.rng
+
+        def fresh(t):
+            taken = {(v.name, v.type) for v in made}
+            cands = sorted({v.name for v in made if v.type != t and (v.name, t) not in taken})
+            if cands and rng.random() < p:
+                v = w.Variable(rng.choice(cands), t, w.env)
+                self.stats["homonym_variables_made"] += 1
+            else:
+                w.nvars += 1
+                v = w.Variable("v%d" % w.nvars, t, w.env)
+            made.append(v)
+            return v
+        return fresh
 
     def retry(self, f, n=8):
         for _ in range(n):
@@ -389,17 +415,29 @@ class Gen:
         self.w = w
         em = w.em
         flavor = flavor or rng.choice(["mixed", "nested", "binder", "binder", "leaf", "chain", "equiv", "not", "capture", "capture",
-                                       "quant", "absent", "identity", "dot", "dot"])
-        need_q = flavor in ("binder", "capture", "quant") or rng.random() < 0.3
+                                       "quant", "absent", "identity", "dot", "dot", "homonym", "homonym"])
+        homonym = flavor == "homonym"
+        need_q = flavor in ("binder", "capture", "quant", "homonym") or rng.random() < 0.3
+        hom_on = homonym or rng.random() < 0.1
         e = None
-        for _attempt in range(25):
-            free = [w.fresh_var(rng.choice(w.all_types())) for _ in range(rng.choice([0, 1, 1, 2]))]
-            depth = rng.choice(self.depths)
-            if rng.random() < 0.12 and not need_q:
-                e = self.retry(lambda: w.gen_num(depth, tuple(free)))
-            else:
-                e = self.retry(lambda: w.gen_bool(depth, tuple(free), leaf_bias=0.1))
+        for _attempt in range(150 if homonym else 25):
+            if hom_on:
+                # same-name / different-type variable pairs: free vs bound, outer vs inner binder, sibling binders
+                w.fresh_var = self.homonym_vars(w, [], 0.9 if homonym else 0.6)
+            try:
+                free = [w.fresh_var(rng.choice(w.all_types())) for _ in range(rng.choice([1, 1, 2] if homonym else [0, 1, 1, 2]))]
+                depth = rng.choice(self.depths)
+                if rng.random() < 0.12 and not need_q:
+                    e = self.retry(lambda: w.gen_num(depth, tuple(free)))
+                else:
+                    e = self.retry(lambda: w.gen_bool(depth, tuple(free), leaf_bias=0.1))
+            finally:
+                if hom_on:
+                    del w.fresh_var
             if e is None:
+                continue
+            if homonym and not any(homonym_under(x, b) for x, b in occurrences(e)):
+                e = None
                 continue
             if n_ops(e) < 3 and rng.random() < 0.92:
                 e = None
@@ -444,6 +482,9 @@ class Gen:
         quants = [(x, b) for x, b in occ if is_quant(x)]
         leaves = [(x, b) for x, b in occ if x.is_parameter_exp() or (x.is_variable_exp() and x.variable() in free)
                   or (x.is_fluent_exp() and all(a.is_object_exp() for a in x.args))]
+        homs = [(x, b) for x, b in nonconst if homonym_under(x, b)]
+        if homs:
+            self.stats["targets_with_free_homonym_under_binder"] += 1
         if flavor == "identity":
             # an identity entry on a compound sub-term K plus 1-2 keys that occur inside K: K's occurrences stay untouched
             cands = [x for x, _ in compound if [y for y, _ in occurrences(x)[1:] if not y.is_constant()]]
@@ -511,6 +552,13 @@ class Gen:
                 k = rng.choice(quants)[0] if quants else rng.choice(compound)[0]
             elif f == "absent":
                 k = self.retry(lambda: w.gen_bool(1, scope_free))
+            elif f == "homonym":
+                # a key with a free variable named like a variable bound around the occurrence (other type, hence another
+                # Variable): it is NOT out of play under that binder.  Mostly keys free of the really bound variables (must be
+                # replaced), sometimes keys that also mention one (must stay); the variable leaf itself included
+                must = [(x, b) for x, b in homs if not (fv(x) & set(b))]
+                k, kb = rng.choice(must if must and rng.random() < 0.75 else homs)
+                mode = rng.choice(["plain", "plain", "const", "const", "equiv", "capture"])
             elif f == "dot":
                 # keys inside Dot nodes: arguments of the inner fluent expression, the inner fluent expression, the Dot node
                 dots = [x for x, _ in occ if x.is_dot()]
@@ -650,6 +698,16 @@ def run(ctx):
             names.ifun(f)
         rec = {"e": str(e), "map": [(str(k), str(v), str(k.type), str(v.type)) for k, v in entries], "shapes": c["shapes"],
                "flavor": c["flavor"], "malformed": c["malformed"]}
+        # variables print by name only: list the names that stand for two Variables (same name, different type)
+        vs_all = set()
+        for x in [e] + [y for kv in entries for y in kv]:
+            for y, b in occurrences(x):
+                vs_all |= set(b) | (set([y.variable()]) if y.is_variable_exp() else set())
+        hom = {n: sorted(str(v.type) for v in vs_all if v.name == n) for n in {v.name for v in vs_all}}
+        hom = {n: ts for n, ts in hom.items() if len(ts) > 1}
+        if hom:
+            rec["same_name_variables"] = hom
+            dist["cases_with_same_name_variables"] += 1
         # --- independent oracle first (it may create nodes; the implementation's bookkeeping is sampled after it) ---
         spec, spec_exc = None, None
         if not c["malformed"]:
